@@ -151,6 +151,10 @@ El(e, cx) ==
             ELSE ErrE("ColumnNotFoundError")
       [] e.k = "lit" -> [k |-> "lit", ty |-> e.ty, v |-> e.v, fk |-> "e"]
       [] e.k = "mark" -> ErrE("TypeError")       \* ordering marker outside arrange (wrap_literals)
+      [] e.k = "map" ->      \* x.map({keys: value, ...}, default=d): first key tuple containing x wins; default is x itself if not given
+            El([k |-> "case",
+                cs |-> [q \in DOMAIN e.ks |-> [c |-> [k |-> "fn", op |-> "is_in", a |-> <<e.e>> \o e.ks[q]], v |-> e.vs[q]]],
+                d |-> IF e.d = <<>> THEN <<e.e>> ELSE e.d], cx)
       [] e.k = "fn" ->
             LET as == ElSeq(e.a, cx)
                 fe == FirstErr(as)
